@@ -17,7 +17,8 @@ import (
 // every subscription whose subject matches (exact, or "prefix.*" wildcard), one
 // member per queue group; Unsubscribe stops delivery at once (pending messages
 // are dropped); Drain stops intake and lets the pending messages be delivered;
-// Flush returns once the server has seen everything sent before; Barrier(f)
+// Flush returns once the server has seen everything sent before (in particular
+// an UNSUB: until then messages of other connections may still arrive); Barrier(f)
 // runs f after every message pending at the call has been handed to its
 // callback.
 
@@ -36,7 +37,8 @@ type verifNatsSub struct {
 	enq       int
 	delivered int
 	closed    bool
-	draining  bool
+	draining  bool // Drain was called
+	intakeOff bool // the server has processed the UNSUB: nothing new arrives
 	wake      chan struct{}
 }
 
@@ -69,7 +71,7 @@ func verifSubjectMatch(pattern, subject string) bool {
 func (b *verifNatsBroker) deliver(p verifPub) {
 	groups := map[string]bool{}
 	for _, s := range b.subs {
-		if s.closed || s.draining || !verifSubjectMatch(s.subject, p.subject) {
+		if s.closed || s.intakeOff || !verifSubjectMatch(s.subject, p.subject) {
 			continue
 		}
 		if s.queue != "" {
@@ -90,7 +92,7 @@ func (b *verifNatsBroker) inject(subject, reply string, data []byte) {
 
 func (s *verifNatsSub) dispatch() {
 	for {
-		verifBlockUntil(func() bool { return len(s.pending) > 0 || s.stop })
+		verifBlockUntil(func() bool { return len(s.pending) > 0 || (s.stop && (s.closed || s.intakeOff)) })
 		if len(s.pending) == 0 {
 			return
 		}
@@ -159,8 +161,14 @@ func verifNatsDrain(h *nats.Subscription) error {
 	if s == nil || s.closed {
 		return nats.ErrBadSubscription
 	}
-	s.draining = true // intake stops; what is pending is still delivered by the dispatcher
+	// What is pending is still delivered. New messages stop arriving once the server has
+	// processed the UNSUB: either soon by itself (the client's asynchronous flusher) or, at
+	// the latest, when the caller waits for a Flush round trip.
+	s.draining = true
 	s.stop = true
+	if verifChoice(2) == 0 {
+		s.intakeOff = true
+	}
 	return nil
 }
 
@@ -169,8 +177,15 @@ func verifNatsSubIsValid(h *nats.Subscription) bool {
 	return s != nil && !s.closed
 }
 
-func verifNatsFlush(c *nats.Conn) error                        { return nil }
-func verifNatsFlushTimeout(c *nats.Conn, d time.Duration) error { return nil }
+func verifNatsFlush(c *nats.Conn) error {
+	for _, s := range verifBroker.subs {
+		if s.draining || s.closed {
+			s.intakeOff = true
+		}
+	}
+	return nil
+}
+func verifNatsFlushTimeout(c *nats.Conn, d time.Duration) error { return verifNatsFlush(c) }
 
 func verifNatsBarrier(c *nats.Conn, f func()) error {
 	type mark struct {
